@@ -100,8 +100,9 @@ func (f *fielder) inspect(t reflect.Type, path []int) {
 			ft = ft.Elem()
 		}
 
-		if name == "" && sf.Anonymous && ft.Kind() == reflect.Struct {
-			// Dig in to the embedded struct.
+		if name == "" && sf.Anonymous && ft.Kind() == reflect.Struct && (ft == symbolType || !isScalarStruct(ft)) {
+			// Dig in to the embedded struct (an embedded Timestamp, Decimal, big.Int or
+			// time.Time is a value of its own, named after its type).
 			f.inspect(ft, newpath)
 		} else {
 			// Add this named field.
